@@ -40,7 +40,9 @@ fn empty_model_x(version: M2Version, flags: u32, symbolic_floats: bool) {
     let w = m.write(&mut out);
     assert!(w.is_ok());
     let hs = m.calculate_header_size();
-    kani::cover!(out.pos == hs, "empty model written");
+    // (no cover in the concrete witness variant: Kani prints one playback test per distinct input vector, and the cover's would
+    // take the place of the failed check's)
+    if symbolic_floats { kani::cover!(out.pos == hs, "empty model written"); }
     assert!(out.pos == hs, "calculate_header_size() != bytes of the header M2Model::write produces");
     let mut src = out.into_source();
     let r = M2Header::parse(&mut src);
